@@ -233,4 +233,48 @@ def run(facts, tier, ctx):
                                 % (b.id, subj, E.show(P), desc)))
     tr.require_floor(8, "two's-complement range checks")
     out.append(tr)
+    # ------------------------------------------------------------ IMPLICIT
+    # every implicit panic site (bounds check, arithmetic overflow, shift overflow, division by zero) met while summarising
+    # the public constructors and the Verify impls - callees and closures inlined - is discharged from the facts that hold
+    # on every path to it (verified ranges, early error returns, loop ranges, earlier assertions).
+    from . import lib_implicit as I
+    im = RuleResult("IMPLICIT", "implicit panic sites of the constructors / Verify impls are discharged from verified facts")
+    NI = [r"BitRepr>::"]
+    recs = []
+    aggs = []
+    undec = []
+    for b in ctors + vimpls + [x for x in facts.body_list if x.id.endswith("BlockSizeSpec::from_size")]:
+        try:
+            r, g = I.collect(facts, b, noinline=NI, want_aggs=True)
+        except E.Undecided as e:
+            undec.append((b.id, str(e)))
+            continue
+        if b in ctors or b in vimpls:
+            recs += r           # helper roots contribute construction sites only; their own sites are judged via callers
+        aggs += g
+    DTP = "component::datatype::"
+    fb, _sites = I.field_bounds(facts, aggs, {"Pow2Mul576": DTP + "BlockSizeSpec", "Pow2Mul256": DTP + "BlockSizeSpec"})
+    im.notes.append("payload bounds over all construction sites seen: %s (derive-generated Deserialize impls are out of "
+                    "scope: C18 is about the constructors)" % fb)
+    ords = I.number_sites(facts, recs)
+    seen_keys = {}
+    for r in recs:
+        key = I.site_key(r, ords)
+        why = I.Prover(facts, r["assume"], fb).prove(r["goal"])
+        prev = seen_keys.get(key)
+        if prev is None or (prev[0] and not why):
+            seen_keys[key] = (why, r)
+    for key, (why, r) in sorted(seen_keys.items()):
+        if why:
+            im.ok({"site": r["site"], "function": r["body"], "kind": r["msg"], "goal": I.show_goal(r["goal"])[:120],
+                   "because": why})
+        else:
+            im.fail(Finding("IMPLICIT", r["body"], "%s#%s" % (r["msg"], key.rsplit("|", 1)[1]), 0, r["site"],
+                            "%s at %s can fail: nothing on the paths to it establishes that %s (facts known there: %s)"
+                            % (r["msg"], r["site"], I.show_goal(r["goal"])[:200],
+                               "; ".join(E.show(a[1])[:60] for a in r["assume"] if a[0] == "cond")[:400] or "none")))
+    for bid, why in undec:
+        im.notes.append("not summarised (no implicit sites decided in it): %s: %s" % (bid, why[:100]))
+    im.require_floor(60, "implicit panic sites")
+    out.append(im)
     return out
